@@ -34,15 +34,15 @@ KNOWN = "hs-multibyte-neighbour"
 
 PRE = """From EV Require Import Base.Str Base.Corr Model.Hyperscan.
 Open Scope N_scope.
-Definition rm_of (tbl : list (nat * str * option (nat * nat))) (i : nat) (s : str) : option (nat * nat) :=
-  match find (fun r => Nat.eqb (fst (fst r)) i && str_eqb (snd (fst r)) s) tbl with
+Definition rm_of (tbl : list (nat * (nat * nat) * option (nat * nat))) (i : nat) (_ : str) (s e : nat) : option (nat * nat) :=
+  match find (fun r => Nat.eqb (fst (fst r)) i && Nat.eqb (fst (snd (fst r))) s && Nat.eqb (snd (snd (fst r))) e) tbl with
   | Some r => snd r | None => None end.
-Definition run_hs (c : list (nat * str * option (nat * nat)) * str * list hit) : list (nat * nat * nat * str) :=
+Definition run_hs (c : list (nat * (nat * nat) * option (nat * nat)) * str * list hit) : list (nat * nat * nat * str) :=
   match c with (tbl, text, hits) =>
     map (fun t => (h_idx t, h_start t, h_end t, h_data t)) (extract (rm_of tbl) text hits) end.
 Definition hs_eqb := list_eqb (pair_eqb (pair_eqb (pair_eqb Nat.eqb Nat.eqb) Nat.eqb) str_eqb).
 """
-TY = ("list (nat * str * option (nat * nat)) * str * list hit", "list (nat * nat * nat * str)")
+TY = ("list (nat * (nat * nat) * option (nat * nat)) * str * list hit", "list (nat * nat * nat * str)")
 
 
 class StubDB:
@@ -94,16 +94,15 @@ def hs_offsets(ctx):
             for t in toks:
                 if not (0 <= t.start <= t.end <= len(text)) or text[t.start:t.end] != t.data:
                     ctx.violation(None, "a reported token does not index its own text", dict(stream="hs-offsets", text=text, hits=hits))
-            # model inputs: re-match table for every (idx, substring) the model may ask
+            # model inputs: in-place re-match table for every (idx, start, end) the model may ask
             tbl = {}
             for i, e in enumerate(exts):
                 for s in range(len(text) + 1):
-                    for en in range(len(text) + 1):
-                        sub = text[s:en]
-                        m = e.compiled_regex.match(sub)
-                        tbl[(i, sub)] = None if m is None else m.span(1)
-            tt = "[" + "; ".join(f"({i}%nat, {E.s(sub)}, " + ("None" if v is None else f"Some ({v[0]}%nat, {v[1]}%nat)") + ")"
-                                 for (i, sub), v in tbl.items()) + "]"
+                    for en in range(s, len(text) + 1):
+                        m = e.compiled_regex.match(text, s, en)
+                        tbl[(i, s, en)] = None if m is None else m.span(1)
+            tt = "[" + "; ".join(f"({i}%nat, ({s_}%nat, {e_}%nat), " + ("None" if v is None else f"Some ({v[0]}%nat, {v[1]}%nat)") + ")"
+                                 for (i, s_, e_), v in tbl.items()) + "]"
             ht = "[" + "; ".join(f"({i}%nat, ({bs}%nat, {be}%nat))" for i, bs, be in hits) + "]"
             # extractor index of each yielded token: tokens are yielded in hit order
             b2c = {}
@@ -114,7 +113,7 @@ def hs_offsets(ctx):
             b2c[pos_] = len(text)
             idxs = []
             for i, bs, be in hits:
-                if bs in b2c and be in b2c and exts[i].compiled_regex.match(text[b2c[bs]:b2c[be]]):
+                if bs in b2c and be in b2c and exts[i].compiled_regex.match(text, b2c[bs], b2c[be]):
                     idxs.append(i)
             if len(idxs) != len(toks):
                 ctx.violation(None, "a hit is kept although an end is inside a character, or dropped although both ends are boundaries",
@@ -138,7 +137,12 @@ def engine(ctx):
     MB = ["“", "”", "’", "—", "–", "é", "ñ", "§", "¶", "ü", "‘", "¿", "ÿ", "\ufffd", "\ufeff", "乿", "\u07ff", "\U0001f600", "߿"]
     docs = ["¿Qué? ÿ See 1 U.S. 1 and id. at 5.", "\ufeff\ufffd Foo v. Bar, 1 F.3d 2 (1999).", "乿亿 see 1 U.S. 1",
             "“1 U.S. 1”", "é1 U.S. 1", "1 U.S. 1é", "See “Foo v. Bar, 1 U.S. 1” at 5.", "42 U.S.C. § 1983", "¶ 5, 1 F.3d 2—3",
-            "Id. at 5” and “supra, at 6"]
+            "Id. at 5” and “supra, at 6",
+            # D19: the re-match on a slice let `^` match at the slice start, so the optional blank of the
+            # volume-less nominative patterns swallowed the boundary character
+            "100 Holmes, at 99", "x Holmes, at 99", "100 Holmes, 99", "See Cooke, 515 and 3 Chase 4"]
+    from eyecite.tokenizers import AhocorasickTokenizer
+    ac_sel = AhocorasickTokenizer()
     for _ in range(200 if th else 30):
         d = textgen.document(rng, n_events=rng.choice([1, 2, 3]), pool=["U.S.", "F.3d", "S. Ct.", "Cal. 4th", "N.E.2d"])
         # splice multi-byte characters at word boundaries and inside words (stated domain: no non-ASCII whitespace/digits)
@@ -177,6 +181,36 @@ def engine(ctx):
         for t in a:
             if not (0 <= t.start <= t.end <= len(d)) or d[t.start:t.end] != t.data:
                 ctx.violation(None, "a Hyperscan token does not index its own text", dict(stream="engine", text=d))
+        # every ADDITIONAL token must be a genuine match of some extractor's pattern at those offsets, in the
+        # real context of the text (the match may start up to one boundary character earlier)
+        extras = [t for t in a if key(t) not in kb]
+        if extras:
+            sel = ac_sel.get_extractors(d)
+            for t in extras[:6]:
+                genuine = False
+                for e in sel:
+                    # Hyperscan reports every end offset at which the pattern matches, not only the one Python's
+                    # greedy search prefers: genuineness is membership of text[s0:e0] in the pattern's language with
+                    # group 1 at the token's offsets, a closing `$` alternative being allowed only at the real end
+                    closes = e.regex.endswith("|$)")
+                    for s0 in range(max(0, t.start - 2), t.start + 1):
+                        for e0 in (t.end, t.end + 1):
+                            if e0 > len(d):
+                                continue
+                            m = e.compiled_regex.match(d, s0, e0)
+                            if (m and m.end() == e0 and m.span(1) == (t.start, t.end) and m.groupdict() == t.groups
+                                    and (e0 == len(d) or e0 > t.end or not closes)):
+                                genuine = True
+                                break
+                        if genuine:
+                            break
+                    if genuine:
+                        break
+                ctx.count("additional Hyperscan token checked for genuineness")
+                if not genuine:
+                    ctx.violation(None, f"Hyperscan reports the token {t.data!r} at {(t.start, t.end)} which no extractor pattern "
+                                        "matches at those offsets in the real text", dict(stream="engine", text=d))
+                    break
     ctx.streams.append("engine")
 
 
